@@ -20,6 +20,8 @@ macro_rules! props {
 
 props! {
     "C01" => props::c01::C01,
+    "C02" => props::c02::C02,
+    "C04" => props::c04::C04,
     "C07" => props::c07::C07,
     "C08" => props::c08::C08,
     "C09" => props::c09::C09,
@@ -31,6 +33,7 @@ props! {
     "C15" => props::c15::C15,
     "C16" => props::c16::C16,
     "C17" => props::c17::C17,
+    "C18" => props::c18::C18,
 }
 
 fn main() {
